@@ -8,6 +8,7 @@ import forsys.virtual_edges as ve
 import forsys.borders as borders
 from forsys.exceptions import BigEdgesBadlyCreated
 import warnings
+import os
 @dataclass
 class ForceMatrix:
     """
@@ -256,6 +257,7 @@ class ForceMatrix:
         mprime = mprime.astype(np.float64)
         # flatten b to convert it to a vector. Rounding is to keep old behavior (not sure if it's useful)
         b = b.astype(np.float64).flatten().round(3)
+        _verif_path = solver_method if solver_method in ("lsq_linear", "lsq", "fix_stress") else "inv"
         try:
             if solver_method == "lsq_linear":
                 solutions = scop.lsq_linear(mprime,
@@ -315,6 +317,7 @@ class ForceMatrix:
                     raise ValueError("Negative values detected")
         except (ValueError, np.linalg.LinAlgError, TypeError) as e:
             warnings.warn(f"Numerically solving due to the following error: {e}")
+            _verif_path = _verif_path + "->nnls-fallback"
             xres, _ = scop.nnls(mprime, b, maxiter=kwargs.get("nnls_max_iter"))
 
         if kwargs.get("verbose", False):
@@ -322,6 +325,14 @@ class ForceMatrix:
 
         if removed_index is not None:
             xres = np.insert(xres, removed_index, 1.)
+
+        if os.environ.get("FORSYS_VERIF") == "1":
+            # verification hook (off by default): what was actually solved, and how
+            self._verif = {"mprime": np.array(mprime, dtype=float).copy(),
+                           "b": np.array(b, dtype=float).copy(),
+                           "xres": np.array(xres, dtype=float).copy(),
+                           "path": _verif_path,
+                           "method": solver_method}
 
         for index, element in enumerate(self.big_edges_to_use):
             edges_to_use = [list(set(self.frame.vertices[element[vid]].ownEdges) & 
